@@ -733,15 +733,28 @@ theorem defaultHandler_noPanic (c : Ctx) (m : TraitMeta) (hm : m.ident.isSome = 
   repeat' (first | apply defaultPickVariant_noPanic | apply defaultPickField_noPanic | np_step)
 
 theorem intoLoop_noPanic (t : String) : ∀ (fas : List (Field × List (String × Option String))) (i : Nat)
-    (acc : Option (Nat × Field × Option String)), NoPanic (intoHandler.loop t i fas acc) := by
+    (acc : Option (Nat × Field × Option String)), NoPanic (intoLoop t i fas acc) := by
   intro fas
   induction fas with
-  | nil => intro i acc; simp [intoHandler.loop]
+  | nil => intro i acc; simp [intoLoop]
   | cons x xs ih =>
     intro i acc
     obtain ⟨f, marks⟩ := x
-    simp only [intoHandler.loop]
+    simp only [intoLoop]
     repeat' (first | apply ih | np_step)
+
+theorem intoSelect_noPanic (t : String) (fas : List (Field × List (String × Option String))) : NoPanic (intoSelect t fas) := by
+  unfold intoSelect
+  split
+  · exact noPanic_ok _
+  · split
+    · exact noPanic_diag _
+    · rename_i hs
+      exact absurd (show NoPanic (Res.panic _) from hs ▸ intoLoop_noPanic _ _ _ _) (by simp [NoPanic, Res.isPanic])
+    · exact noPanic_ok _
+    · split
+      · exact noPanic_ok _
+      · exact noPanic_diag _
 
 theorem noPanic_bind_eq {α β : Type} (r : Res α) (f : α → Res β) (hr : NoPanic r) (hf : ∀ a, r = .ok a → NoPanic (f a)) :
     NoPanic (r >>= f) := by
@@ -761,13 +774,12 @@ macro "np_into" : tactic => `(tactic| first
   | (apply intoTypeFromMetas_noPanic; first | assumption | (apply collectAttrs_idents_nil; assumption))
   | (apply intoFieldFromMetas_noPanic; first | assumption | (apply collectAttrs_idents_nil; assumption))
   | apply collectAttrs_noPanic
-  | apply intoLoop_noPanic
+  | apply intoSelect_noPanic
   | apply noPanic_bind_eq
   | apply noPanic_mapRes
   | intro _
   | split
-  | dsimp only
-  | (rename_i hs; exact absurd (show NoPanic (Res.panic _) from hs ▸ intoLoop_noPanic _ _ _ _) (by simp [NoPanic, Res.isPanic])))
+  | dsimp only)
 
 theorem intoHandler_noPanic (c : Ctx) (ms : List TraitMeta) (hne : ms ≠ []) (hm : ∀ m ∈ ms, m.ident.isSome = true) :
     NoPanic (intoHandler c ms) := by
